@@ -680,7 +680,7 @@ where
 	let index = sizes.len();
 	sizes.push(Size::Width(0));
 
-	let mut size = Size::Width(2 + options.object_begin + options.object_end);
+	let mut size = Size::Width(2 + options.array_begin + options.array_end);
 
 	let mut len = 0;
 	for (i, item) in items.into_iter().enumerate() {
